@@ -12,7 +12,7 @@ use std::process::{Child, Command, Stdio};
 use std::sync::{Arc, Barrier};
 use std::time::{Duration, Instant};
 
-const REQ_W: usize = 110;
+const REQ_W: usize = 112;
 
 pub struct HttpEngine {
     pub max_requests: usize,
@@ -111,7 +111,10 @@ pub fn http(port: u16, method: &str, path: &str, content_type: Option<&str>, bod
     let mut buf = Vec::new();
     let r = s.read_to_end(&mut buf);
     if buf.is_empty() {
-        return Err(format!("connection closed without a response ({:?})", r.err()));
+        return match r {
+            Err(e) if e.kind() == std::io::ErrorKind::WouldBlock || e.kind() == std::io::ErrorKind::TimedOut => Err(format!("timed out after {:?}", timeout)),
+            other => Err(format!("connection closed without a response ({:?})", other.err())),
+        };
     }
     let text = String::from_utf8_lossy(&buf).to_string();
     let (head, rest) = text.split_once("\r\n\r\n").ok_or("no header end")?;
@@ -176,7 +179,24 @@ impl HttpEngine {
             3 => {
                 let inst = decode_inst(&mini_tape(rec), &self.cfg, &format!("q{}_", i));
                 let mut v = inst.to_json();
-                let what = match pick(f(rec, 1), 6) {
+                let what = match pick(f(rec, 1), 9) {
+                    6 | 7 => {
+                        // passes the parser, fails in the solver: the vehicle type of the first
+                        // departure's route cannot carry anybody
+                        let route_id = v["departures"][0]["route"].clone();
+                        let type_id = v["routes"].as_array().and_then(|rs| rs.iter().find(|r| r["id"] == route_id)).map(|r| r["vehicleType"].clone()).unwrap_or(Value::Null);
+                        if let Some(ts) = v["vehicleTypes"].as_array_mut() {
+                            for t in ts.iter_mut().filter(|t| t["id"] == type_id) {
+                                t["capacity"] = json!(0);
+                                t["seats"] = json!(0);
+                            }
+                        }
+                        "vehicle type with capacity 0"
+                    }
+                    8 => {
+                        v["maintenanceSlots"] = json!([{"id": "bad_slot", "location": v["locations"][0]["id"], "start": "2024-02-28T10:00:00", "end": "2024-02-28T09:00:00", "trackCount": 1}]);
+                        "maintenance slot ending before it starts"
+                    }
                     0 => {
                         v["routes"][0]["vehicleType"] = json!("no_such_type");
                         "dangling vehicle type"
@@ -212,8 +232,30 @@ impl HttpEngine {
     }
 }
 
+/// consecutive segments of one departure must be servable in order with minimal shunting
+fn departures_servable(inst: &Inst) -> bool {
+    for d in &inst.departures {
+        let Some(route) = inst.routes.iter().find(|r| r.id == d.route) else { return false };
+        let mut prev_arr: Option<i64> = None;
+        for sg in &d.segs {
+            let Some(rs) = route.segs.iter().find(|x| x.id == sg.rseg) else { return false };
+            let Some(dep) = parse_time(&sg.departure) else { return false };
+            if let Some(a) = prev_arr {
+                if a + inst.shunt_min as i64 > dep {
+                    return false;
+                }
+            }
+            prev_arr = Some(dep + rs.duration as i64);
+        }
+    }
+    true
+}
+
 fn check_valid_answer(i: usize, inst: &Inst, r: &Result<Resp, String>, fs: &mut Vec<Finding>) {
     match r {
+        // a read timeout is a watchdog expiry (inconclusive, handled by the caller), anything else
+        // (refused, closed without a response) is a failure that was not isolated
+        Err(e) if e.contains("timed out") || e.contains("WouldBlock") || e.contains("os error 11") => fs.push(Finding { prop: "TIMEOUT", msg: format!("request {}: no answer within the watchdog: {}", i, e) }),
         Err(e) => fs.push(Finding { prop: "C18", msg: format!("request {}: valid /solve got no answer: {}", i, e) }),
         Ok(resp) => {
             if resp.status != 200 {
@@ -251,7 +293,7 @@ impl Engine for HttpEngine {
         vec![sec(4, 1, 1), sec(REQ_W, 2, self.max_requests)]
     }
     fn rule(&self) -> String {
-        "request scripts (tape): 2-N requests, each GET /health | POST /solve with a valid instance (ids prefixed with the request number) | malformed body (truncated, wrong/no content type, syntax error, empty) | semantically invalid body (dangling type/route/location reference, missing key, unparsable date, non-object), released in batches of 1..k concurrent connections against the real server binary; every answer is attributed and validated (O-JSON), after the script a fresh /health and valid /solve must succeed and the server process must still be the same; distinct = tape digest; non-trivial = >= 2 valid solves of different instances in flight together AND >= 1 invalid/malformed body before the last valid one".to_string()
+        "request scripts (tape): 2-N requests, each GET /health | POST /solve with a valid instance (ids prefixed with the request number) | malformed body (truncated, wrong/no content type, syntax error, empty) | semantically invalid body (dangling type/route/location reference, missing key, unparsable date, non-object, capacity 0 of a used vehicle type, slot ending before it starts); 40 % of the valid requests are variants of an earlier valid request of the same script (exact re-send, or the same ids with other parameters only), released in batches of 1..k concurrent connections against the real server binary; every answer is attributed and validated (O-JSON), after the script a fresh /health and valid /solve must succeed and the server process must still be the same; distinct = tape digest; non-trivial = >= 2 valid solves of different instances in flight together AND >= 1 invalid/malformed body before the last valid one".to_string()
     }
     fn assumptions(&self) -> Vec<String> {
         vec!["the harness owns request order and concurrency level, not the server's thread schedule; interleavings are sampled".into(), "no response-time bound is asserted; only a generous per-request watchdog (inconclusive)".into()]
@@ -263,7 +305,42 @@ impl Engine for HttpEngine {
     fn eval(&self, tape: &Tape) -> CaseOutcome {
         let mut o = CaseOutcome::new(tape.digest());
         let p: Vec<u32> = tape.sec(0).first().cloned().unwrap_or_default();
-        let reqs: Vec<Req> = tape.sec(1).iter().enumerate().map(|(i, r)| self.decode(i, r)).collect();
+        let mut reqs: Vec<Req> = tape.sec(1).iter().enumerate().map(|(i, r)| self.decode(i, r)).collect();
+        // some valid requests become *variants* of an earlier valid request of the script: the same
+        // instance (same ids!) with other `parameters` only, or an exact re-send. Each must still be
+        // answered with a solution of exactly the instance it carried.
+        for i in 1..reqs.len() {
+            let r = &tape.sec(1)[i];
+            if !matches!(reqs[i], Req::Valid { .. }) || pick_w(f(r, 108), &[3, 2]) == 0 {
+                continue;
+            }
+            let earlier: Vec<usize> = (0..i).filter(|k| matches!(reqs[*k], Req::Valid { .. })).collect();
+            if earlier.is_empty() {
+                continue;
+            }
+            let k = earlier[pick(f(r, 109), earlier.len())];
+            if let Req::Valid { inst, .. } = &reqs[k] {
+                let mut v = inst.clone();
+                match pick(f(r, 107), 4) {
+                    0 => {} // exact re-send
+                    1 => v.forbid = Some(!v.forbid.unwrap_or(false)),
+                    2 => {
+                        v.costs.dead_head = if v.costs.dead_head == 0 { 7 } else { 0 };
+                        v.costs.idle += 3;
+                        v.costs.service = v.costs.service * 2 + 1;
+                    }
+                    _ => {
+                        v.shunt_min = if v.shunt_min == 0 { 600 } else { 0 };
+                        v.max_distance = Some(v.max_distance.unwrap_or(0) / 2 + 500);
+                    }
+                }
+                // keep the instance valid: consecutive segments of a departure stay servable only
+                // if the minimal shunting did not grow beyond their gaps -> re-check with Flat
+                if Flat::new(&v).is_ok() && departures_servable(&v) {
+                    reqs[i] = Req::Valid { input: v.to_json(), inst: v };
+                }
+            }
+        }
         let batch = 1 + pick(f(&p, 0), self.max_in_flight);
         let srv = match start_server() {
             Ok(s) => s,
@@ -275,7 +352,7 @@ impl Engine for HttpEngine {
         let port = srv.port;
         let mut fs: Vec<Finding> = Vec::new();
         let mut log: Vec<String> = Vec::new();
-        let timeout = Duration::from_secs(120);
+        let timeout = Duration::from_secs(40);
         let mut concurrent_valid_pairs = false;
         let mut invalid_before_valid = false;
         let mut seen_invalid = false;
@@ -367,6 +444,10 @@ impl Engine for HttpEngine {
                 .to_string(),
             );
         }
+        if let Some(t) = fs.iter().find(|f| f.prop == "TIMEOUT") {
+            o.inconclusive = Some(t.msg.clone());
+        }
+        fs.retain(|f| f.prop != "TIMEOUT");
         o.classes.sort();
         o.classes.dedup();
         o.nontrivial = concurrent_valid_pairs && invalid_before_valid;
